@@ -243,6 +243,41 @@ pub fn deviations_ex(cfg: &AttackCfg, r: &RefRun, seed: u64, also_live: bool) ->
             let _ = (&mut vel, &mut cel);
         }
     }
+    // a liar that opens a wrong key sum consistently with its own commitments c0 / c1: only the
+    // comparison with the XOR of the MACs (AShareWrongMAC) can catch it
+    {
+        let delta_c = r.probes[c].iter().find(|p| p.site == "delta" && p.data.len() == 16).map(|p| u128::from_le_bytes(p.data[..16].try_into().unwrap()));
+        let opens: Vec<usize> = (0..ss.len()).filter(|i| ss[*i].phase == "fashare di_bi").collect();
+        for &oi in &opens {
+            let Some(delta_c) = delta_c else { break };
+            let to = ss[oi].to;
+            let o = site_occ[oi];
+            let Some(ci) = (0..ss.len()).find(|i| ss[*i].phase == "fashare comm" && ss[*i].to == to && site_occ[*i] == o) else { continue };
+            let open = &r.run.transcript[ss[oi].tr];
+            let comm = &r.run.transcript[ss[ci].tr];
+            let (Ok(V::Vec(oel, ol)), Ok(V::Vec(cel, cl))) = (schema::decode_msg("fashare di_bi", &open.data), schema::decode_msg("fashare comm", &comm.data)) else { continue };
+            let round = rng.random_range(0..oel.len().max(1));
+            let V::U128(d_open) = oel[round] else { continue };
+            let mask: u128 = 1 << rng.random_range(0..128);
+            let (new_open, new_other) = (d_open ^ mask, d_open ^ delta_c ^ mask);
+            let arr = |h: blake3::Hash| V::Arr(h.as_bytes().iter().map(|b| V::U8(*b)).collect());
+            let commit_of = |x: u128| blake3::hash(&x.to_be_bytes());
+            let (mut oel2, mut cel2) = (oel.clone(), cel.clone());
+            oel2[round] = V::U128(new_open);
+            if let V::Tup(fields) = &mut cel2[round] {
+                let opened_is_c0 = fields[0] == arr(commit_of(d_open));
+                let (io, ix) = if opened_is_c0 { (0, 1) } else { (1, 0) };
+                fields[io] = arr(commit_of(new_open));
+                fields[ix] = arr(commit_of(new_other));
+            }
+            push(
+                format!("fashare di_bi#{}:opening+c0c1:one-recipient", o.min(1)),
+                vec![(ci, MutSpec::Bytes(schema::encode_msg(&V::Vec(cel2, cl)))), (oi, MutSpec::Bytes(schema::encode_msg(&V::Vec(oel2, ol))))],
+                vec![to],
+                &mut out,
+            );
+        }
+    }
     // consistent lies through taps (live cheater that stays self-consistent)
     let others: Vec<usize> = (0..n).filter(|p| *p != c).collect();
     let tap = |site: &str, idx: Option<usize>, occ: Option<usize>| TapSpec {
